@@ -286,7 +286,7 @@ def run_units(units, repo, tier="quick", seed=0, tag="x", timeout=None, filters=
                     if o.get("finding"):
                         continue
                     try:
-                        playback(dst, env, o)
+                        playback(dst, env, o, repo)
                     except Exception as e:
                         o["replay_result"] = "playback error: %s" % e
             r.wall_s = time.time() - t0
@@ -298,7 +298,7 @@ def run_units(units, repo, tier="quick", seed=0, tag="x", timeout=None, filters=
         lockf.close()
 
 
-def playback(dst, env, o):
+def playback(dst, env, o, repo=None):
     """Ask Kani for concrete values of the failing harness; for stub-free harnesses run the
     generated test against the real code (cargo kani playback)."""
     cmd = ["cargo", "kani", "-Z", "function-contracts", "-Z", "stubbing", "-Z", "concrete-playback",
@@ -312,7 +312,18 @@ def playback(dst, env, o):
         test = m.group(1)
         o["counterexample"] = test[:6000]
         o["replay_test"] = test[:6000]
-        if not o.get("stubs"):
+        real = None
+        if repo is not None:
+            try:
+                import io_replay
+                real = io_replay.run(o["harness"], test, repo)
+            except Exception as e:
+                real = dict(replayed=False, note="real-file replay failed to run: %s" % e)
+        if real and real.get("replayed"):
+            o["replayed"] = bool(real.get("reproduced"))
+            o["replay_result"] = ("REPRODUCED on the real code (real file, real syscalls, one EIO injected with strace at the call the verifier chose): "
+                                  if real.get("reproduced") else "real-file replay did NOT reproduce the failure: ") + json.dumps(real)
+        elif not o.get("stubs"):
             o["replay_result"] = "stub-free harness: `cargo kani playback` of this test runs the real function on these inputs (./check --replay <file>)"
             o["replayed"] = False
         else:
